@@ -10,6 +10,14 @@ TH = 'mistral.engine.task_handler'
 
 
 def run(ctx):
+    _run(ctx)
+    from mstatic.rules import shared
+    r9 = ctx.rule('R9', 'the concurrency policy (like every configured '
+                  'policy) is applied before the items are scheduled', 'EXH')
+    shared.policy_hooks_total(ctx, r9)
+
+
+def _run(ctx):
     prog, sd = ctx.prog, ctx.sd
     S = sd.consts
     completed = sd.pred_set('is_completed')
